@@ -1024,6 +1024,10 @@ func (c *FnCtx) cancellable(fr *Frame) {
 							done = true
 						}
 					}
+					if wantCtx == "default" && !x.Blocking {
+						// `ch:default`: the select has a default case, the operation never blocks
+						done = true
+					}
 					if has {
 						seen++
 						if !done {
